@@ -116,10 +116,10 @@ theorem slice_to_end (text : List Char) (a : Nat) : slice text a text.length = t
 /-- all characters of the stretch are ignored characters of the state -/
 def AllIgnored (s : LexerState) (l : List Char) : Prop := ∀ c ∈ l, isIgnored s c = true
 
-theorem plyToken_tok (s : LexerState) (text : List Char) (pos : Nat) (ty : String) (start n : Nat)
-    (h : plyToken s text pos = .tok ty start n) :
+theorem plyToken_tok (s : LexerState) (text : List Char) (pos : Nat) (ty : String) (start n : Nat) {ap : Bool}
+    (h : plyToken s text pos ap = .tok ty start n) :
     pos ≤ start ∧ AllIgnored s (slice text pos start) ∧ 0 < n ∧ start + n ≤ text.length ∧
-    ∃ r, FirstMatch (rulesOf s) (text.drop start) r n ∧ ty = ruleType r ((text.drop start).take n) := by
+    ∃ r, FirstMatch (rulesOf s) (text.drop start) r n ∧ ty = ruleFn ap r ((text.drop start).take n) := by
   unfold plyToken at h
   simp only at h
   split at h
@@ -143,8 +143,8 @@ theorem plyToken_tok (s : LexerState) (text : List Char) (pos : Nat) (ty : Strin
     · simp at h
     · simp at h
 
-theorem plyToken_eof (s : LexerState) (text : List Char) (pos p : Nat)
-    (h : plyToken s text pos = .eof p) : AllIgnored s (text.drop pos) ∧ pos < p := by
+theorem plyToken_eof (s : LexerState) (text : List Char) (pos p : Nat) {ap : Bool}
+    (h : plyToken s text pos ap = .eof p) : AllIgnored s (text.drop pos) ∧ pos < p := by
   unfold plyToken at h
   simp only at h
   split at h
